@@ -97,6 +97,8 @@ def build_indicator_task(spec, variant):
         env["i"] = SInt(i)
         # parameter preconditions hold while the constructor and _initialise run
         for label, src in spec.extra_pre.items():
+            if "forall" in src:
+                continue  # needs the lets (evaluated once the instance exists)
             try:
                 v = SpecEval(ex, st0, env).ev(src)
             except Unsupported:
